@@ -26,6 +26,19 @@ CLAIMED = {
         "note": "trusted: blst primitives' infinity handling, LinkedHashMap, Mutex; assumes callers of update() pass true pairings",
         "technique": _T + "who-may-call + must-pass-through dominance + lock-region contents + value provenance + sibling agreement",
     },
+    "C18": {
+        "text": "Decides, for every path: each leaf built from caller-supplied key/hash and each replacement of an existing "
+                "leaf's hash is guarded by the duplicate-key/duplicate-hash checks (in place, at every caller of a private "
+                "helper, or by a completed pre-validation loop over the same batch that also checks in-batch uniqueness); "
+                "the blob bytes and cache maps are written only by the enumerated functions and a block write updates the "
+                "cache in the same call; MerkleBlob::new rebuilds the cache rejecting duplicates; structure-changing "
+                "operations mark the surviving ancestor's lineage dirty on every Ok path (enumerated root exceptions); lazy "
+                "hashing / proofs fold internal_hash with children and sides in the right roles. Does not decide "
+                "equivalence with a plain map over histories or atomicity in general.",
+        "design_ref": "DESIGN.md 3/C18",
+        "note": "trusted: HashMap/IndexSet/bitvec, SHA-256; heap-shape invariants of the blob are not proved",
+        "technique": _T + "must-pass-through guards (with interprocedural discharge at callers) + who-may-write + loop idiom recognition + role tables",
+    },
 }
 
 _PENDING = "check not built yet in this round (planned, see DESIGN.md section 3); not claimed until its rules run"
